@@ -361,6 +361,8 @@ func siteName(id int32) string {
 		return "harness:between-ops"
 	case -3:
 		return "harness:client-start"
+	case -4:
+		return "lock-held-by-parked-client"
 	}
 	return fmt.Sprintf("site%d", id)
 }
@@ -374,6 +376,7 @@ func siteFunc(id int32) string {
 
 func installHooks(w *Workload) {
 	zzverifrt.Hook = simrt.Yield
+	zzverifrt.Blocked = simrt.BlockedYield
 	zzverifrt.MapOrder = mapOrderFn(w.MapSalt, w.MapPolicy)
 	simrt.SetNoPreempt(&zzverifrt.NoPreempt)
 }
